@@ -1,6 +1,6 @@
 (* RstDoc.v — RSTRenderer applied to the core AST (renderers/rst.py and renderers/_list.py): every render method as a
    function of the token, the list of inline images collected in state.env['inline_images'] and printed as substitution
-   definitions by __call__, the `prev` token that iter_tokens hands to block_quote, textwrap.indent with its default
+   definitions by __call__, the `prev` token that iter_tokens hands to block_quote, the module's indent with its
    predicate, the in-band hard-break marker that paragraph splits on.  The control skeletons with constants of all these
    functions are compared on every run (RstRenderGen); the pattern of strip_end is regenerated (RxGen).  Definitions only. *)
 From Coq Require Import ZArith List Bool Lia.
@@ -8,9 +8,9 @@ From Verif Require Import PyStr Rx RxSub Inline Block Doc MdDoc.
 Import ListNotations.
 Open Scope Z_scope.
 
-(* textwrap.indent(text, prefix): the prefix goes before every line that is not white space only *)
+(* renderers.rst.indent(text, prefix): the prefix goes before every line (ended by a line feed only) that is not white space only *)
 Definition indent_text (ws : Z -> bool) (prefix text : str) : str :=
-  flat_map (fun line => if forallb ws line then line else prefix ++ line) (splitlines_keep text).
+  flat_map (fun line => if forallb ws line then line else prefix ++ line) (lines_lf_keep text).
 
 Definition s_linebreak : str := [60; 108; 105; 110; 101; 98; 114; 101; 97; 107; 62].     (* "<linebreak>" *)
 Definition s_img : str := [105; 109; 103; 45].                                            (* INLINE_IMAGE_PREFIX "img-" *)
